@@ -338,7 +338,7 @@ func init() {
 					return io
 				}
 				if honest {
-					if res.Verdict != engine.Accept {
+					if !res.AcceptedHonestly() {
 						return fw.Violate("rejects_honest_public_values", fmt.Sprintf("case %s: %s", c.ID, resStr(res)))
 					}
 					o.Inc("honest_accepted")
